@@ -19,10 +19,10 @@ from . import common as C
 
 PID = "C13"
 META = {
-    "ready": False,
+    "ready": True,
     "category": "proof",
     "technique": "Lean 4 model of steel's syntax-rules machinery (pattern compilation, match_list_pattern, collect_bindings, definition-time ## renaming, ReplaceExpressions, Expander) + R7RS/Kohlbecker specification; theorems about matching/instantiation and the guarded hygiene statement; differential runs real SteelMacro / real Engine vs model vs specification",
-    "level_text": "Proved for all patterns / forms / programs (SteelVerif/C13/Props.lean, induction, no bounds): match_exact (for well-formed pattern lists — one ellipsis per list, distinct variables, any nesting / ellipsis depth, dotted tails — matching a user form and re-instantiating the pattern as a template with steel's instantiator gives the form back and binds every variable; guards: no ellipsis followed by a dotted tail in one list (finding K13e), the form contains no identifier spelled like a mangled pattern variable; both guards shown necessary by witnesses), match_complete (after a successful match collect_bindings never fails), match_literal, expand_fuel_mono, and not_hygiene: the full hygiene statement is false for the mechanism, with one witness per violated conjunct (K13a, K13b, K13c, K13d) by kernel evaluation. NOT proved: hygiene_partial (G prog -> M expansion alpha-equivalent to the ideal expansion); the statement is kept as HygienePartial. Inside G, and for modules / macro-defining macros, hygiene rests on the differential run: real SteelMacro vs model (exact expansion text) and vs R7RS specification on generated pattern/form pairs, real Engine vs model vs specification (values that reveal which binding each identifier resolved to) on generated programs.",
+    "level_text": "Proved for all patterns / forms / programs (SteelVerif/C13/Props.lean, induction, no bounds): match_exact (for well-formed pattern lists — one ellipsis per list, distinct variables, any nesting / ellipsis depth, dotted tails — matching a user form and re-instantiating the pattern as a template with steel's instantiator gives the form back and binds every variable; including an ellipsis followed by a dotted tail since fix 2a1b125d; guards: no nested pattern list of the exact form (p ... . r), the form contains no identifier spelled like a mangled pattern variable; both guards shown necessary by witnesses), match_complete (after a successful match collect_bindings never fails), match_literal, expand_fuel_mono, and not_hygiene: the full hygiene statement is false for the mechanism, with one witness per violated conjunct (K13a, K13b, K13c, K13d) by kernel evaluation. NOT proved: hygiene_partial (G prog -> M expansion alpha-equivalent to the ideal expansion); the statement is kept as HygienePartial. Inside G, and for modules / macro-defining macros, hygiene rests on the differential run: real SteelMacro vs model (exact expansion text) and vs R7RS specification on generated pattern/form pairs, real Engine vs model vs specification (values that reveal which binding each identifier resolved to) on generated programs.",
     "level_note": "Trusted: Lean kernel, harness/driver/comparison, hand-written model (tied to /repo by the unit- and program-level correspondence on every run). Modules, kernel (defmacro) macros, vectors/strings/quote patterns, named let, set! and syntax-case are not modelled.",
 }
 
@@ -31,7 +31,6 @@ FINDING_CLASSES = {
     "b": ("K13b", "nested_templates_same_spelling_exchange_identifiers"),
     "c": ("K13c", "literal_shadowed_at_use_site"),
     "d": ("K13d", "template_binder_spelling_also_free_in_same_template"),
-    "e": ("K13e", "ellipsis_followed_by_dotted_tail"),
     "f": ("K13f", "pattern_variable_under_extra_ellipsis_depth"),
     "g": ("K13g", "macro_defining_macro"),
 }
@@ -269,7 +268,7 @@ def mirror_flags(text):
     try:
         forms = read_all(text.replace(" ;;;--- ", " "))
     except Exception:
-        return set("abcdefg")
+        return set("abcdfg")
     macros = {}
     body = []
     for f in forms:
@@ -311,8 +310,6 @@ def mirror_flags(text):
                 flags.add("c")
             if intro & fo:
                 flags.add("d")
-            if pat_ell_rest(pat):
-                flags.add("e")
             pd = {}
             pat_depths(pat[1:] if isinstance(pat, list) else pat, 0, pd, lits | {name})
             occ = []
@@ -802,24 +799,13 @@ def load_corpus():
 
 
 def known_ids(ctx):
-    """open findings: the lines of KNOWN_FINDINGS.txt; until the coordinator has added the proposed lines, a
-    finding whose replay file findings/C13-K13x.txt exists is treated as listed."""
-    known = {k["id"]: k["text"].split(" ", 5)[-1] for k in ctx.load_known() if "id" in k}
-    provisional = []
-    for c, (kid, cname) in FINDING_CLASSES.items():
-        path = os.path.join(C.VERIF, "findings", "C13-%s.txt" % kid)
-        if kid not in known and os.path.exists(path):
-            first = [l[2:].strip() for l in open(path) if l.startswith("# ")]
-            known[kid] = "replay=findings/C13-%s.txt %s" % (kid, first[0] if first else "")
-            provisional.append(kid)
-    return known, provisional
+    """open findings of this property: the `finding:` lines of KNOWN_FINDINGS.txt (nothing else)."""
+    return {k["id"]: k["text"].split(" ", 5)[-1] for k in ctx.load_known() if "id" in k}
 
 
 def run(ctx):
     st = Stats()
-    known, provisional = known_ids(ctx)
-    if provisional:
-        ctx.notes.append("findings treated as listed because their replay file exists (proposed lines not yet in KNOWN_FINDINGS.txt): " + ",".join(sorted(provisional)))
+    known = known_ids(ctx)
     pr = C.prove(ctx, "C13", ["c13driver"])
     ok, log = C.build_harness(ctx, ["c13"])
     if not ok or not os.path.exists(C.driver_path("c13driver")):
